@@ -31,7 +31,7 @@ typedef struct sExpectError {
     tErrorNum            Num;
 } tExpectError;
 
-Word                 ErrorCount, WarnCount;
+LongWord             ErrorCount, WarnCount;
 static tExpectError* pExpectErrors = NULL;
 static Boolean       InExpect      = False;
 
